@@ -225,12 +225,16 @@ async def find_deployment_id(name: str, force_suffix: bool = False) -> str:
     deployment_id = re.sub(r"[^a-z0-9]", "-", deployment_id)
     deployment_id = re.sub(r"-+", "-", deployment_id)
     deployment_id = re.sub(r"^-|-$", "", deployment_id)
+    # A name with fewer than three alphanumerics always gets a random suffix. Count
+    # them here: the separators and the "d-" prefix added below do not make an id
+    # such as "a-b" or "d-1" meaningful enough.
+    few_alphanumerics = len(deployment_id.replace("-", "")) < 3
     # DNS-1035: must start with an alphabetic character
     if deployment_id and not deployment_id[0].isalpha():
         deployment_id = "d-" + deployment_id
     deployment_id = deployment_id[:max_length].rstrip("-")
     base_deployment_id = deployment_id
-    if len(deployment_id) < 3 or force_suffix:
+    if few_alphanumerics or force_suffix:
         deployment_id = _append_random_suffix(deployment_id, max_length)
 
     # Try to find a deployment id that is not in use
